@@ -1201,6 +1201,7 @@ func checkC19(c *Check) {
 	c19Configured(c)
 	c19CloseClosesSocket(c, "R11")
 	c19StampIsOwnEnd(c, "R12")
+	c19NilMapGuard(c, "R13", poolRel)
 }
 
 // R8: the pool never waits on a bucket. A bucket channel is bounded (the idle-count limit, possibly 0); a send that
